@@ -131,7 +131,10 @@ Section Natives.
   Ltac lift E N := rewrite (eval_lift _ _ _ _ _ _ _ _ _ E N) by lia.
 
   (* the key function sees every entry once, first to last *)
-  Lemma keys_run keyfn cb (Hp : pure_cb P host keyfn cb) :
+  Lemma pure_cb_two keyfn cb : pure_cb P host keyfn cb -> pure_cb_on P host two_args keyfn cb.
+  Proof. intros H args s _. apply H. Qed.
+
+  Lemma keys_run keyfn cb (Hp : pure_cb_on P host two_args keyfn cb) :
     forall entries acc s, exists s',
       runs P host (TkKeys keyfn entries acc) s
            (ok (rev acc ++ map (key_by_cb of_key cb) entries) empty_env s') /\ extends s s'.
@@ -140,7 +143,7 @@ Section Natives.
     - exists (bump s). split; [|apply extends_bump].
       apply runs_intro with (f := 0) (l := st_steps s); [lia| |discriminate].
       rewrite F_unfold by lia. cbn [map]. rewrite app_nil_r. reflexivity.
-    - destruct (Hp [v; of_key k] (bump s)) as (s1 & (f1 & l1 & E1 & N1) & X1).
+    - destruct (Hp [v; of_key k] (bump s) eq_refl) as (s1 & (f1 & l1 & E1 & N1) & X1).
       destruct (IH (cb [v; of_key k] :: acc) s1) as (s2 & (f2 & l2 & E2 & N2) & X2).
       exists s2. split; [|eauto using extends_trans, extends_bump].
       apply runs_intro with (f := max f1 f2) (l := N.max (N.max l1 l2) (st_steps s)); [lia| |discriminate].
@@ -257,9 +260,9 @@ Section Natives.
   Qed.
 
   (* ---- sorted_by_key ---- *)
-  Theorem native_sort_correct keyfn cb s p tb :
+  Theorem native_sort_correct_on keyfn cb s p tb :
     nth_error (st_heap s) p = Some tb -> wf_table tb ->
-    pure_cb P host keyfn cb ->
+    pure_cb_on P host two_args keyfn cb ->
     (forall args, key_valid (cb args) = true) ->
     exists s',
       runs P host (TkNative n_sort [VTable p; keyfn]) s (ok [VTable (length (st_heap s))] empty_env s') /\
@@ -307,10 +310,10 @@ Section Natives.
   (* ---- min_by_key / max_by_key ---- *)
   Definition want_of (name : str) : comparison := if str_eqb name n_min then Lt else Gt.
 
-  Theorem native_minmax_correct name keyfn cb s p tb :
+  Theorem native_minmax_correct_on name keyfn cb s p tb :
     name = n_min \/ name = n_max ->
     nth_error (st_heap s) p = Some tb ->
-    pure_cb P host keyfn cb ->
+    pure_cb_on P host two_args keyfn cb ->
     exists s',
       match spec_best (cmp_is (st_heap s) (want_of name)) (key_by_cb of_key cb) tb with
       | None =>
@@ -352,6 +355,31 @@ Section Natives.
     - cbn [st_heap set_heap]. reflexivity.
     - split; cbn [st_globals st_log set_heap]; [apply (ext_globals _ _ X1) | apply (ext_log _ _ X1)].
   Qed.
+  Theorem native_sort_correct keyfn cb s p tb :
+    nth_error (st_heap s) p = Some tb -> wf_table tb ->
+    pure_cb P host keyfn cb ->
+    (forall args, key_valid (cb args) = true) ->
+    exists s',
+      runs P host (TkNative n_sort [VTable p; keyfn]) s (ok [VTable (length (st_heap s))] empty_env s') /\
+      st_heap s' = st_heap s ++ [spec_sorted (sort_lt (st_heap s)) (key_by_cb of_key cb) tb] /\
+      same_world s s'.
+  Proof. intros Hp Hwf Hcb. apply native_sort_correct_on; auto using pure_cb_two. Qed.
+
+  Theorem native_minmax_correct name keyfn cb s p tb :
+    name = n_min \/ name = n_max ->
+    nth_error (st_heap s) p = Some tb ->
+    pure_cb P host keyfn cb ->
+    exists s',
+      match spec_best (cmp_is (st_heap s) (want_of name)) (key_by_cb of_key cb) tb with
+      | None =>
+          runs P host (TkNative name [VTable p; keyfn]) s (ok [VNil] empty_env s') /\
+          st_heap s' = st_heap s
+      | Some e =>
+          runs P host (TkNative name [VTable p; keyfn]) s (ok [VTable (length (st_heap s))] empty_env s') /\
+          st_heap s' = st_heap s ++ [row_value_table e]
+      end /\ same_world s s'.
+  Proof. intros Hn Hp Hcb. apply native_minmax_correct_on; auto using pure_cb_two. Qed.
+
   (* ---- the contracts, read off: what sorted_by_key / min_by_key / max_by_key return ---- *)
   Theorem native_sorted_contract keyfn cb s p tb :
     nth_error (st_heap s) p = Some tb -> wf_table tb ->
@@ -422,6 +450,8 @@ End Natives.
 
 Print Assumptions stable_sort_is_sort_keyed.
 Print Assumptions native_to_array_correct.
+Print Assumptions native_sort_correct_on.
+Print Assumptions native_minmax_correct_on.
 Print Assumptions native_sort_correct.
 Print Assumptions native_minmax_correct.
 Print Assumptions native_sorted_contract.
